@@ -1208,7 +1208,7 @@ class LinReg(_Component):
                 stacklevel=2,
             )
             igc = iq
-            if isinstance(igc, dict):
+            if isinstance(igc, dict) and "iq" in igc:
                 igc["ig"] = igc.pop("iq")
         else:
             igc = ig
